@@ -16,7 +16,7 @@ Extraction "base.ml"
   sup_expr inf_expr
   q_is_empty q_is_universe q_contains q_strictly_contains q_is_disjoint q_equals
   rel_is_disjoint rel_is_included rel_saturates rel_strictly_intersects
-  q_maximize q_minimize q_constant q_bounds_above q_bounds_below q_is_bounded q_is_closed q_constrains
+  q_maximize q_minimize q_constant q_is_discrete q_bounds_above q_bounds_below q_is_bounded q_is_closed q_constrains
   cg_intersects cg_included te_gens fold_gens covered_by_union generalized_affine_image_lhs generalized_affine_preimage_lhs pos_time_elapse diff_pieces suc_check suc_flag
   empty_sys false_sys Qcompare Qeq_bool Qplus Qmult Qminus Qdiv Qopp Qle_bool inject_Z.
 Cd "../../coq".
